@@ -11,7 +11,7 @@ import z3
 from pyvc import terms as T
 from pyvc.values import *  # noqa
 from pyvc.interp import PyRaise
-from pyvc.world import Contract
+from pyvc.world import Contract, LoopSpec
 from .preds import prove_wf
 from .core import CONTRACTS, contract
 
@@ -232,6 +232,15 @@ def spec(self, name, dom, cod, **params):
 ''', params=None)
 
 
+# assumed likewise: rigid.Box.__init__ (monoidal.Box.__init__ followed by the unchecked fast path of Diagram.__init__)
+contract('rigid.Box.__init__', is_init=True, spec='''
+def spec(self, name, dom, cod, **params):
+    self._name = name
+    self._dom = dom
+    self._cod = cod
+''', params=None)
+
+
 def _slash_ty(ex, name, which=None):
     """a symbolic biclosed type; which = 'over' / 'under' makes it a slash type"""
     t = z3.Const(name, T.TyS)
@@ -438,3 +447,167 @@ def _e_curry_branch(interp, args, kwargs, result):
 
 
 _branch('Curry', _p_curry_branch, _e_curry_branch)
+
+
+# ====================================================================================================================
+# rigid.Cup / rigid.Cap constructors and the nested cups / caps (C01 producers, C04 images of cups and caps, and the
+# call-site contract `cups(l, r) : l @ r -> Ty()` that the rule images above rely on)
+
+def _adjoint_pair(interp, left, right):
+    """left.r == right or left == right.r   (one-object or longer types)"""
+    return z3.Or(T.ty_eq(_adj(interp, left.t, 'r'), right.t), T.ty_eq(left.t, _adj(interp, right.t, 'r')))
+
+
+def _make_cupcap(kind):
+    def make(interp, args, kwargs):
+        ex = interp.ex
+        left, right = args
+        if not (isinstance(left, VTy) and isinstance(right, VTy)):
+            raise PyRaise('TypeError', 'Cup / Cap of something that is not a type')
+        if not ex.branch(z3.And(T.ty_len(left.t) == 1, T.ty_len(right.t) == 1)):
+            raise PyRaise('ValueError', 'cup_vs_cups')
+        if not ex.branch(_adjoint_pair(interp, left, right)):
+            raise PyRaise('AxiomError', 'are_not_adjoints')
+        b = T.fresh(kind.lower(), T.BoxS)
+        both = T.ty_concat(left.t, right.t)
+        ex.assume(T.bkind(b) == T.KINDS[kind])
+        ex.assume(T.bdom(b) == (both if kind == 'Cup' else T.EMPTY))
+        ex.assume(T.bcod(b) == (T.EMPTY if kind == 'Cup' else both))
+        return VBox(b, extra={'dom': VTy(both if kind == 'Cup' else T.EMPTY),
+                              'cod': VTy(T.EMPTY if kind == 'Cup' else both)})
+    return make
+
+
+def _cupcap_init(kind):
+    def params(ex):
+        left, right = ex.sym_ty('left'), ex.sym_ty('right')
+        ex._cc = (left, right)
+        return [VObject('rigid.' + kind), left, right], {}
+
+    def ensures(interp, args, kwargs, obj):
+        ex = interp.ex
+        left, right = ex._cc
+        both = T.ty_concat(left.t, right.t)
+        ex.prove('C01:%s accepts only one-object types' % kind, z3.And(T.ty_len(left.t) == 1, T.ty_len(right.t) == 1))
+        ex.prove('C01:%s accepts only adjoint pairs' % kind, _adjoint_pair(interp, left, right))
+        ex.prove('C01:%s.dom' % kind, T.ty_eq(obj.attrs['_dom'].t, both if kind == 'Cup' else T.EMPTY))
+        ex.prove('C01:%s.cod' % kind, T.ty_eq(obj.attrs['_cod'].t, T.EMPTY if kind == 'Cup' else both))
+
+    def on_raise(interp, args, kwargs, exc):
+        ex = interp.ex
+        left, right = ex._cc
+        ok = z3.And(T.ty_len(left.t) == 1, T.ty_len(right.t) == 1, _adjoint_pair(interp, left, right))
+        ex.prove('C01:%s refuses only what is not an adjoint pair of one-object types (raised %s)' % (kind, exc), z3.Not(ok))
+    c = contract('rigid.%s.__init__' % kind, is_init=True, params=params, ensures=ensures, on_raise=on_raise,
+                 property_ids=('C01', 'C04'))
+    CONTRACTS['rigid.%s.__init__' % kind].make = _make_cupcap(kind)
+
+
+_cupcap_init('Cup')
+_cupcap_init('Cap')
+
+
+def _p_cups(ex):
+    left, right = ex.sym_ty('left'), ex.sym_ty('right')
+    reverse = ex.fork(2) == 1
+    ex._cups = (left, right, reverse)
+    kw = {'reverse': VBool(True), 'cup_factory': VClass('rigid.Cap')} if reverse else {}
+    return [left, right], kw
+
+
+def _cups_state(interp, left, right, k, reverse):
+    """dom / cod of `result` after k nested cups (caps: the same read backwards)"""
+    ex = interp.ex
+    n = T.ty_len(left.t)
+    lo, _ = ex.ty_split(left.t, z3.simplify(n - k))
+    _, hi = ex.ty_split(right.t, k)
+    mid, full = T.ty_concat(lo, hi), T.ty_concat(left.t, right.t)
+    return (mid, full) if reverse else (full, mid)
+
+
+def _cups_assume(interp, env, k, seq=None, at_exit=False):
+    ex = interp.ex
+    left, right = env.lookup('left'), env.lookup('right')
+    reverse = ex._cups[2]
+    n = T.ty_len(left.t)
+    dom, cod = _cups_state(interp, left, right, k, reverse)
+    env.set('result', _fresh_wf(interp, 'nested', dom, cod))
+    if not at_exit:
+        # instances of "adjoints reverse the order" for the decompositions around the objects contracted at this step
+        j = z3.simplify(n - k - 1)
+        a, rest = ex.ty_split(left.t, j)
+        m, b = ex.ty_split(rest, T.I(1))
+        _adj(interp, T.ty_concat(a, m, b), 'r')
+        a2, rest2 = ex.ty_split(right.t, k)
+        m2, b2 = ex.ty_split(rest2, T.I(1))
+        _adj(interp, T.ty_concat(a2, m2, b2), 'r')
+
+
+def _cups_check(interp, env, k, label, seq=None):
+    ex = interp.ex
+    left, right = env.lookup('left'), env.lookup('right')
+    reverse = ex._cups[2]
+    result = interp.world.as_diagram(env.lookup('result'))
+    dom, cod = _cups_state(interp, left, right, k, reverse)
+    ex.prove(label + ':result.dom', T.ty_eq(result.dom.t, dom))
+    ex.prove(label + ':result.cod', T.ty_eq(result.cod.t, cod))
+    prove_wf(ex, label, result)
+
+
+def _e_cups(interp, args, kwargs, result):
+    ex = interp.ex
+    left, right, reverse = ex._cups
+    result = interp.world.as_diagram(result)
+    full = T.ty_concat(left.t, right.t)
+    ex.prove('C01:cups / caps only for adjoint types', _adjoint_pair(interp, left, right))
+    ex.prove('C04:nested %s dom' % ('caps' if reverse else 'cups'), T.ty_eq(result.dom.t, T.EMPTY if reverse else full))
+    ex.prove('C04:nested %s cod' % ('caps' if reverse else 'cups'), T.ty_eq(result.cod.t, full if reverse else T.EMPTY))
+    prove_wf(ex, 'C01:nested cups / caps', result)
+
+
+def _r_cups(interp, args, kwargs, exc):
+    ex = interp.ex
+    left, right, reverse = ex._cups
+    ex.prove('C01:cups / caps raise only AxiomError (raised %s)' % exc, z3.BoolVal(exc == 'AxiomError'))
+    ex.prove('C01:cups / caps refuse only types that are not adjoint', z3.Not(_adjoint_pair(interp, left, right)))
+
+
+_prev_abstract = CONTRACTS['rigid.cups'].abstract
+contract('rigid.cups', params=_p_cups, ensures=_e_cups, on_raise=_r_cups,
+         loops={1: LoopSpec(assume=_cups_assume, check=_cups_check)}, property_ids=('C01', 'C04', 'C18'))
+CONTRACTS['rigid.cups'].abstract = _prev_abstract
+
+
+# ---------------------------------------------------------------- rigid.Functor.__call__ on cups and caps (C04)
+# assumed (type branch, bounded by the driver): F is a homomorphism on types and commutes with adjoints.
+def _rigid_cupcap_branch(kind):
+    def params(ex):
+        from pyvc.interp import Interp
+        from pyvc.world import World
+        it = Interp(ex, World(CONTRACTS))
+        F = VFunctor('F', ar_factory='rigid.Diagram')
+        F.adjoints = True
+        x, y = ex.sym_ty('x'), ex.sym_ty('y')
+        ex.assume(z3.And(z3.Length(x.t) == 1, z3.Length(y.t) == 1))
+        ex.assume(_adjoint_pair(it, x, y))                         # class invariant of Cup / Cap (proved above)
+        b = z3.Const('cupcap', T.BoxS)
+        ex.assume(T.bkind(b) == T.KINDS[kind])
+        both, unit = VTy(T.ty_concat(x.t, y.t)), VTy(T.EMPTY)
+        dom, cod = (both, unit) if kind == 'Cup' else (unit, both)
+        ex._rb = (F, dom, cod)
+        return [F, VBox(b, extra={'dom': dom, 'cod': cod})], {}
+
+    def ensures(interp, args, kwargs, result):
+        ex = interp.ex
+        F, dom, cod = ex._rb
+        result = interp.world.as_diagram(result)
+        ex.prove('C04:F(%s).dom == F(%s.dom)' % (kind, kind), T.ty_eq(result.dom.t, _FT(interp, F, dom.t)))
+        ex.prove('C04:F(%s).cod == F(%s.cod)' % (kind, kind), T.ty_eq(result.cod.t, _FT(interp, F, cod.t)))
+        prove_wf(ex, 'C01:F(%s)' % kind, result)
+    c = Contract('rigid.Functor.__call__', params=params, ensures=ensures, property_ids=('C04', 'C01'))
+    c.label = 'rigid.Functor.__call__[%s]' % kind
+    CONTRACTS[c.label] = c
+
+
+_rigid_cupcap_branch('Cup')
+_rigid_cupcap_branch('Cap')
